@@ -307,8 +307,10 @@ contract(NS + 'Nasa.to_cti', P,
 
 # ---- lateral interactions -----------------------------------------------------------------------------------------
 COV = 'pmutt.mixture.cov:PiecewiseCovEffect'
-for ulabel, U, factor in (('kcal/mol', UNITS, '1'), ('J/mol', lambda: New('pmutt.omkm.units:Units', energy=Const('J'), quantity=Const('mol')),
-                                                 "const.convert_unit(initial='kcal/mol', final='J/mol')")):
+FACTOR = "const.convert_unit(initial='kcal', final=units.energy) / const.convert_unit(initial='mol', final=units.quantity)"
+for ulabel, U, factor in (('kcal/mol', UNITS, '1'),
+                          ('J/mol', lambda: New('pmutt.omkm.units:Units', energy=Const('J'), quantity=Const('mol')), FACTOR),
+                          ('cal/molec', lambda: New('pmutt.omkm.units:Units'), FACTOR)):
     cov = New(COV, name_i=Const('N(S)'), name_j=Const('H(S)'), intervals=ListOf([Const(0.), Real(0.1, 0.9)]), slopes=RealList(2, -50., 50.),
               name=Const('i_0003'))
     contract(COV + '.to_omkm_yaml', P, label=ulabel, args=dict(self=cov, units=U()),
@@ -338,7 +340,7 @@ def srx(reactants, products, ts=None, **kw):
     d = dict(reactants=ListOf([osp(n, g) for n, _nu, g in reactants]), reactants_stoich=ListOf([Const(float(nu)) for _n, nu, _g in reactants]),
              products=ListOf([osp(n, g) for n, _nu, g in products]), products_stoich=ListOf([Const(float(nu)) for _n, nu, _g in products]))
     if ts:
-        d['transition_state'] = ListOf([osp(ts)])
+        d['transition_state'] = ListOf([ts if isinstance(ts, Spec) else osp(ts)])
         d['transition_state_stoich'] = ListOf([Const(1.)])
     d.update(kw)
     return New(SR, **d)
@@ -383,3 +385,180 @@ contract(SR + '.to_omkm_yaml', P, label='adsorption-site-written-first',
          args=dict(self=S_ADS_SITE_FIRST(id=Const('r_0001')), T=TT, units=UNITS()), ghost=dict(terrace=TERR),
          requires=['T > 0', 'terrace.site_density > 0'],
          ensures=[('sticking-species-is-the-gas-reactant', 'result["sticking-species"] == "H2"')], options=PLAIN, cross_check=False)
+
+# ---- CTI form of the reactions ---------------------------------------------------------------------------------------------
+E5 = lambda x: '"{: .5e}".format(%s)' % x
+for ulabel, U in (('kcal-mol-cm', UNITS), ('J-molec-m', UNITS2)):
+    AU = "units.quantity + '/' + units.length + '2'"
+    contract(SR + '.to_cti', P, label='with-TS,%s' % ulabel,
+             args=dict(self=S_SURF(id=Const('r_0007'), beta=Real(0., 2.)), T=TT, units=U()), ghost=dict(terrace=TERR),
+             requires=['T > 0', 'terrace.site_density > 0'],
+             ensures=[('directive-equation-id',
+                       'result.startswith(\'surface_reaction("NH(S) + RU(S) <=> N(S) + H(S)",\\n\') and result.endswith(\',\\n                 id="r_0007")\')'),
+                      ('A-b-Ea', "result.split('[')[1].split(']')[0] == %s + ', {}, '.format(self.beta) + %s" % (
+                          E5('self.get_A(T=T, P=const.P0("bar"), include_entropy=False, units=%s)' % AU),
+                          E5('self.get_G_act(units=units.act_energy, T=T, P=const.P0("bar"))')))],
+             options=PLAIN, cross_check=False)
+    contract(SR + '.to_cti', P, label='adsorption,%s' % ulabel,
+             args=dict(self=S_ADS(id=Const('r_0001'), beta=Real(0., 2.)), T=TT, units=U()), ghost=dict(terrace=TERR),
+             requires=['T > 0', 'terrace.site_density > 0'],
+             ensures=[('directive-equation-id',
+                       'result.startswith(\'surface_reaction("H2 + 2 RU(S) <=> 2 H(S)",\\n\') and result.endswith(\',\\n                 id="r_0001")\')'),
+                      ('stick-b-Ea', "result.split('stick(')[1].split(')')[0] == %s + ', {}, '.format(self.beta) + %s" % (
+                          E5('self.sticking_coeff'), E5('self.get_H_act(units=units.act_energy, T=T, P=const.P0("bar"))')))],
+             options=PLAIN, cross_check=False)
+contract(SR + '.to_cti', P, label='no-id', args=dict(self=S_SURF(beta=Real(0., 2.), A=Real(1e10, 1e20), Ea=Real(0., 50.)), T=TT, units=UNITS()),
+         requires=['T > 0'],
+         ensures=[('no-id-clause', '"id=" not in result and result.endswith("])")'),
+                  ('given-A-and-Ea', "result.split('[')[1].split(']')[0] == %s + ', {}, '.format(self.beta) + %s" % (
+                      E5('self.A'), E5('const.convert_unit(self.Ea, initial="kcal/mol", final=units.act_energy)')))],
+         options=PLAIN, cross_check=False)
+
+# ---- pre-exponential factor of a surface reaction --------------------------------------------------------------------------
+for label, f, nsurf in (('2-surface-reactants', S_SURF_NOTS, 2), ('adsorption-2-sites', S_ADS, 2)):
+    contract(SR + '.get_A', P, label=label, args=dict(self=f(), T=TT, include_entropy=Const(False), units=Const('molec/cm2'), sden_operation=Const('min')),
+             ghost=dict(terrace=TERR), requires=['T > 0', 'terrace.site_density > 0'],
+             ensures=[('kB/h-over-site-density^(n_surf-1)',
+                       "result == const.kb('J/K') / const.h('J s') / (terrace.site_density * const.convert_unit(initial='mol', final='molec'))"
+                       " ** %d" % (nsurf - 1))])
+contract(SR + '.get_A', P, label='user-value', args=dict(self=S_SURF(A=Real(1e10, 1e20)), T=TT), requires=['T > 0'], ensures=['result == self.A'])
+contract(SR + '.get_A', P, label='no-site', args=dict(self=srx([('H2', 1, True)], [('H', 2, True)]), T=TT), requires=['T > 0'],
+         raises={'ValueError': 'True'}, cross_check=False)
+
+# ---- BEP relations -------------------------------------------------------------------------------------------------------
+OBEP = 'pmutt.omkm.reaction:BEP'
+
+
+def obep(direction, syn=(), cle=()):
+    return New(OBEP, name=Const('N2_dissoc'), slope=Real(0., 1.), intercept=Real(0., 60.), direction=Const(direction),
+               descriptor=Const('delta_H'), synthesis_reactions=rx_ids(*syn), cleavage_reactions=rx_ids(*cle))
+
+
+for ulabel, U in (('kcal/mol', UNITS), ('J/mol', UNITS2)):
+    contract(OBEP + '.to_omkm_yaml', P, label='cleavage,' + ulabel,
+             args=dict(self=obep('cleavage', cle=('r_0002', 'r_0003', 'r_0005')), units=U()),
+             ensures=[('members-and-parameters',
+                       'result == {"id": "N2_dissoc", "slope": self.slope, "intercept": spec.omkm.with_unit(const.convert_unit(self.intercept, '
+                       '"kcal/mol", units.act_energy), "_act_energy", units), "direction": "cleavage", '
+                       '"cleavage-reactions": ["\\"r_0002 to r_0003\\"", "\\"r_0005\\""]}')],
+             options=PLAIN, cross_check=False)
+    contract(OBEP + '.to_cti', P, label='synthesis,' + ulabel,
+             args=dict(self=obep('synthesis', syn=('r_0001',)), units=U()),
+             ensures=[('directive',
+                       'result == \'bep(id="N2_dissoc",\\n    slope={},\\n    intercept={},\\n    direction="synthesis",\\n    '
+                       'cleavage_reactions=[],\\n    synthesis_reactions=["r_0001"])\\n\'.format(self.slope, const.convert_unit(self.intercept, '
+                       '"kcal/mol", units.act_energy))')],
+             options=PLAIN, cross_check=False)
+
+# ---- whole files: every object once, in its section, unique ids ------------------------------------------------------------
+def plain_nasa(name, sites=None):
+    return New(NS + 'Nasa', name=Const(name), T_low=Const(200.), T_mid=Const(1000.), T_high=Const(3000.),
+               a_low=NpConst([3.5, 1e-3, -2e-7, 0., 0., -1e4, 5.]), a_high=NpConst([3.1, 2e-3, -1e-7, 0., 0., -9e3, 6.]),
+               elements=Const({'H': 2}), n_sites=Const(sites))
+
+
+def cov_i(name):
+    return New(COV, name_i=Const('N(S)'), name_j=Const('H(S)'), intervals=ListOf([Const(0.), Real(0.1, 0.9)]), slopes=RealList(2, -50., 50.),
+               name=Const(name))
+
+
+def model_args():
+    return dict(phases=ListOf([New(OPH + 'IdealGas', name=Const('gas'), species=ListOf([member('H2', {'H': 2})])), TERR]),
+                species=ListOf([plain_nasa('H2'), plain_nasa('H(S)', 1)]),
+                reactions=ListOf([S_SURF_NOTS(beta=Real(0., 2.), A=Real(1e10, 1e20), Ea=Real(0., 50.)),
+                                  S_SURF(id=Const('r_0000'), beta=Real(0., 2.), A=Real(1e10, 1e20), Ea=Real(0., 50.)),
+                                  S_ADS(beta=Real(0., 2.), Ea=Real(0., 50.))]),
+                lateral_interactions=ListOf([cov_i(None), cov_i('i_0000')]), units=UNITS(), T=TT)
+
+
+DUMP = lambda k: 'ext_call("yaml.dump", %d)["data"]' % k
+contract(IO + 'write_thermo_yaml', P, label='model', args=model_args(), ghost=dict(terrace=TERR),
+         requires=['T > 0', 'terrace.site_density > 0'],
+         ensures=[('ids-unique-and-user-ids-kept',
+                   'spec.omkm.distinct([r.id for r in reactions]) and reactions[1].id == "r_0000" and all(r.id is not None for r in reactions) and '
+                   'spec.omkm.distinct([i.name for i in lateral_interactions]) and lateral_interactions[1].name == "i_0000" and '
+                   'lateral_interactions[0].name is not None'),
+                  ('sections-in-order', '[list(%s.keys()) for k in (0, 1, 2, 3, 4)] == [["units"], ["phases"], ["species"], ["reactions"], ["interactions"]]'
+                   .replace('%s', 'ext_call("yaml.dump", k)["data"]')),
+                  ('units', DUMP(0) + '["units"] == units.to_omkm_yaml()'),
+                  ('each-phase-once', DUMP(1) + '["phases"] == [phases[0].to_omkm_yaml(units=units), phases[1].to_omkm_yaml(units=units)]'),
+                  ('each-species-once', DUMP(2) + '["species"] == [s.to_omkm_yaml() for s in species]'),
+                  ('each-reaction-once-at-the-requested-T', DUMP(3) + '["reactions"] == [r.to_omkm_yaml(units=units, T=T) for r in reactions]'),
+                  ('each-interaction-once', DUMP(4) + '["interactions"] == [i.to_omkm_yaml(units=units) for i in lateral_interactions]')],
+         options=PLAIN, cross_check=False)
+contract(IO + 'write_cti', P, label='model', args=model_args(), ghost=dict(terrace=TERR),
+         requires=['T > 0', 'terrace.site_density > 0'],
+         ensures=[('ids-unique-and-user-ids-kept',
+                   'spec.omkm.distinct([r.id for r in reactions]) and reactions[1].id == "r_0000" and all(r.id is not None for r in reactions) and '
+                   'spec.omkm.distinct([i.name for i in lateral_interactions]) and lateral_interactions[1].name == "i_0000"'),
+                  ('sections-in-order', 'spec.omkm.cti_titles(result) == ["UNITS", "PHASES", "SPECIES", "LATERAL INTERACTIONS", "REACTION OPTIONS", "REACTIONS"]'),
+                  ('units', 'spec.omkm.cti_section(result, "UNITS") == units.to_cti()'),
+                  ('each-phase-once', 'spec.omkm.cti_section(result, "PHASES") == phases[0].to_cti() + "\\n" + phases[1].to_cti(units=units)'),
+                  ('each-species-once', 'spec.omkm.cti_section(result, "SPECIES") == species[0].to_cti() + "\\n" + species[1].to_cti()'),
+                  ('each-interaction-once', 'spec.omkm.cti_section(result, "LATERAL INTERACTIONS") == '
+                                            '"\\n".join([i.to_cti(units=units) for i in lateral_interactions])'),
+                  ('each-reaction-once-at-the-requested-T', 'spec.omkm.cti_section(result, "REACTIONS") == '
+                                                            '"\\n".join([r.to_cti(units=units, T=T) for r in reactions])'),
+                  ('motz-wise-switch', 'spec.omkm.cti_section(result, "REACTION OPTIONS") == "disable_motz_wise()\\n"')],
+         options=PLAIN, cross_check=False)
+
+
+# a model whose reactions share Bronsted-Evans-Polanyi relations, one of them unnamed
+BEP1 = Shared('bep1', New(OBEP, name=Const('N2_dissoc'), slope=Real(0., 1.), intercept=Real(0., 60.), direction=Const('cleavage'),
+                          descriptor=Const('delta_H')))
+BEP2 = Shared('bep2', New(OBEP, name=Const(None), slope=Real(0., 1.), intercept=Real(0., 60.), direction=Const('cleavage'),
+                          descriptor=Const('delta_H')))
+
+
+def bep_rx(bep, **kw):
+    return srx([('NH(S)', 1, False), ('RU(S)', 1, False)], [('N(S)', 1, False), ('H(S)', 1, False)], ts=bep, direction=Const('cleavage'),
+               A=Real(1e10, 1e20), Ea=Real(0., 50.), beta=Real(0., 2.), **kw)
+
+
+def bep_model():
+    return dict(reactions=ListOf([bep_rx(BEP1), bep_rx(BEP2, id=Const('r_0000')), bep_rx(BEP1)]), units=UNITS(), T=TT)
+
+
+contract(IO + 'write_thermo_yaml', P, label='with-BEPs', args=bep_model(), ghost=dict(b1=BEP1, b2=BEP2), requires=['T > 0'],
+         ensures=[('ids-unique', 'spec.omkm.distinct([r.id for r in reactions]) and reactions[1].id == "r_0000"'),
+                  ('beps-named-and-distinct', 'b1.name == "N2_dissoc" and b2.name is not None and b2.name != b1.name'),
+                  ('sections-in-order', '[list(ext_call("yaml.dump", k)["data"].keys()) for k in (0, 1, 2)] == [["units"], ["reactions"], ["beps"]]'),
+                  ('each-bep-once-with-its-members',
+                   DUMP(2) + '["beps"] == [b1.to_omkm_yaml(units=units), b2.to_omkm_yaml(units=units)] and '
+                   'spec.ids.denotes_exactly(' + DUMP(2) + '["beps"][0]["cleavage-reactions"], [reactions[0].id, reactions[2].id]) and '
+                   'spec.ids.denotes_exactly(' + DUMP(2) + '["beps"][1]["cleavage-reactions"], [reactions[1].id])')],
+         options=PLAIN, cross_check=False)
+contract(IO + 'write_cti', P, label='with-BEPs', args=bep_model(), ghost=dict(b1=BEP1, b2=BEP2), requires=['T > 0'],
+         ensures=[('ids-unique', 'spec.omkm.distinct([r.id for r in reactions]) and reactions[1].id == "r_0000"'),
+                  ('beps-named-and-distinct', 'b1.name == "N2_dissoc" and b2.name is not None and b2.name != b1.name'),
+                  ('sections-in-order', 'spec.omkm.cti_titles(result) == ["UNITS", "REACTION OPTIONS", "REACTIONS", "BEP Relationships"]'),
+                  ('each-bep-once', 'spec.omkm.cti_section(result, "BEP Relationships") == b1.to_cti(units=units) + "\\n" + b2.to_cti(units=units)')],
+         options=PLAIN, cross_check=False)
+
+# ---- CTI species directives are closed and use the directive of their polynomial family ------------------------------
+POS9 = ['all(x > 0.001 for x in n.a) and all(x < 1000 for x in n.a)']
+contract(NS + 'Nasa9.to_cti', P,
+         args=dict(self=New(NS + 'Nasa9', name=Const('H2O'), elements=Const({'H': 2, 'O': 1}), n_sites=Const(None),
+                            nasas=ListOf([New(NS + 'SingleNasa9', T_low=Const(200.), T_high=Const(1000.), a=RealVec(9, 0.001, 5.)),
+                                          New(NS + 'SingleNasa9', T_low=Const(1000.), T_high=Const(6000.), a=RealVec(9, 0.001, 5.))]))),
+         requires=['all(x > 0.001 for x in self.nasas[0].a)', 'all(x < 1000 for x in self.nasas[0].a)',
+                   'all(x > 0.001 for x in self.nasas[1].a)', 'all(x < 1000 for x in self.nasas[1].a)'],
+         ensures=[('directive-balanced', 'spec.omkm.balanced(result) and result.startswith(\'species(name="H2O", atoms="H:2 O:1",\')'),
+                  ('nine-coefficient-directives', 'len(result.split("NASA9([")) == 3 and "NASA([" not in result'),
+                  ('ranges', '"NASA9([200.0, 1000.0]," in result and "NASA9([1000.0, 6000.0]," in result'),
+                  ('coefficients-first-range', 'result.split("NASA9([200.0, 1000.0],")[1].split("])")[0].replace("\\n", "").replace("[", "").replace(" ", "")'
+                                               '.split(",") == [%s.replace(" ", "") for x in self.nasas[0].a]' % SCI('x'))],
+         cross_check=False)
+contract(SH + '.to_cti', P,
+         args=dict(self=New(SH, name=Const('H2O'), T_low=Const(298.), T_high=Const(3000.), a=RealVec(8, 0.001, 5.),
+                            elements=Const({'H': 2, 'O': 1}), n_sites=Const(2))),
+         requires=['all(x > 0.001 for x in self.a)', 'all(x < 1000 for x in self.a)'],
+         ensures=[('directive-balanced', 'spec.omkm.balanced(result) and result.startswith(\'species(name="H2O", atoms="H:2 O:1", size=2,\')'),
+                  ('coefficients-A-to-G', 'result.split("Shomate([298.0, 3000.0],")[1].split("])")[0].replace("\\n", "").replace("[", "").replace(" ", "")'
+                                          '.split(",") == [%s.replace(" ", "") for x in list(self.a)[:7]]' % SCI('x'))],
+         cross_check=False)
+contract(NS + 'Nasa.to_cti', P, label='balanced',
+         args=dict(self=New(NS + 'Nasa', name=Const('H2O'), T_low=Const(200.), T_mid=Const(1000.), T_high=Const(3000.),
+                            a_low=NpConst([3.5, 1e-3, -2e-7, 0., 0., -1e4, 5.]), a_high=NpConst([3.1, 2e-3, -1e-7, 0., 0., -9e3, 6.]),
+                            elements=Const({'H': 2, 'O': 1}), n_sites=Const(None))),
+         ensures=[('directive-balanced', 'spec.omkm.balanced(result)')], cross_check=False)
